@@ -93,6 +93,15 @@ def oracleConst {α β : Type} [JCodec β] (key : String) (r : Req) : α → Py 
     | .error _ => .error .other
   | .error _ => .error (oracleErr key r)
 
+/-- the same for an oracle of three arguments -/
+def oracleConst3 {α β γ ζ : Type} [JCodec ζ] (key : String) (r : Req) : α → β → γ → Py ζ := fun _ _ _ =>
+  match r.oracle.getObjVal? key with
+  | .ok j =>
+    match (JCodec.dec j : Except String ζ) with
+    | .ok v => .ok v
+    | .error _ => .error .other
+  | .error _ => .error (oracleErr key r)
+
 /-- the same for an oracle of five arguments -/
 def oracleConst5 {α β γ δ ε ζ : Type} [JCodec ζ] (key : String) (r : Req) : α → β → γ → δ → ε → Py ζ := fun _ _ _ _ _ =>
   match r.oracle.getObjVal? key with
